@@ -136,6 +136,48 @@ def gen_plan(ch: Chooser, tier: str) -> dict[str, Any]:
                                     'body': {'metadata': {'name': 'default'}}, 'actor': 'admin'})
     else:
         opspec['standalone'] = True
+    const_lat = None
+    if ch.bool(0.2):
+        # two changes of what is served (namespaces, the optional kind) within one instant, delivered with equal delays:
+        # the second one is noticed while the orchestrator is still adjusting its watchers to the first one
+        t2 = round(ch.float(3.0, horizon), 6)
+        const_lat = ch.choice([0.002, 0.01])
+        pool = [n for n in live_ns if n != 'default']
+        both: list[dict[str, Any]] = []
+        slow_first = False
+        for k in range(2):
+            kind_ = ch.weighted([('ns-delete', 6 if pool else 0), ('ns-create', 2), ('crd', 1)])
+            tk = round(t2 + (0.0 if k == 0 else ch.choice([0.3, 0.8]) if slow_first else ch.choice([0.0, 0.0002, 0.001, 0.3])), 6)
+            if kind_ == 'ns-delete':
+                victim = pool.pop(ch.int(0, len(pool) - 1))
+                live_ns.remove(victim)
+                both.append({'t': tk, 'do': 'ns-delete', 'name': victim})
+                if k == 0 and victim in namespaces and ch.bool(0.8):
+                    # ... and that takes its time: a handler is still busy with an object of the namespace that goes
+                    objects.append({'kind': 'widgets', 'ns': victim, 'body': {'metadata': {'name': 'wslow'}, 'spec': {'a': 0}}})
+                    handlers[0]['scripts'] = {'wslow': [{'do': 'ok', 'dur': 0.0}, {'do': 'ok', 'dur': 1.5}]}
+                    both.append({'t': round(t2 - 0.3, 6), 'do': 'patch', 'kind': 'widgets', 'ns': victim, 'name': 'wslow',
+                                 'patch': {'spec': {'a': 1}}})
+                    slow_first = True
+                actions[:] = [a for a in actions if not ((a.get('ns') == victim or a.get('name') == victim and
+                                                          a['do'].startswith('ns-')) and a['t'] >= t2)]
+            elif kind_ == 'ns-create':
+                name = next((n for n in ('ns-d', 'ns-e') if n not in live_ns), None)
+                if name is not None:
+                    live_ns.append(name)
+                    both.append({'t': tk, 'do': 'ns-create', 'name': name})
+                    both.append({'t': round(tk + 0.5, 6), 'do': 'create', 'kind': 'widgets', 'ns': name,
+                                 'body': {'metadata': {'name': 'wn'}, 'spec': {'a': 77}}})
+                    if plan.get('peering') and not clusterwide:
+                        both.append({'t': round(tk + 0.05, 6), 'do': 'create', 'kind': 'kopfpeerings', 'ns': name,
+                                     'body': {'metadata': {'name': 'default'}}, 'actor': 'admin'})
+            else:
+                later = [a for a in actions if a['do'] in ('crd-install', 'crd-uninstall') and a['t'] >= t2]
+                earlier = [a for a in actions if a['do'] in ('crd-install', 'crd-uninstall') and a['t'] < t2]
+                if not later:
+                    on_now = (earlier[-1]['do'] == 'crd-install') if earlier else kinds[1]['installed']
+                    both.append({'t': tk, 'do': 'crd-uninstall' if on_now else 'crd-install', 'kind': 'gadgets'})
+        actions.extend(both)
     actions.sort(key=lambda a: a['t'])
     plan.update({
         'until': horizon + 40.0, 'horizon': horizon, 'unknown_error': unknown_error,
@@ -147,6 +189,8 @@ def gen_plan(ch: Chooser, tier: str) -> dict[str, Any]:
                 'watch_lat_lo': 0.001, 'watch_lat_hi': ch.choice([0.005, 0.05]), 'rules': rules,
                 'chunking': ch.choice(['line', 'torn'])},
     })
+    if const_lat is not None:
+        plan['net']['watch_lat_lo'] = plan['net']['watch_lat_hi'] = const_lat
     return plan
 
 
